@@ -405,6 +405,40 @@ def run(an: Analysis, rep):
                         f"decoded wrongly (other string constants, or UnicodeDecodeError) although CPython runs it" if direct else
                         f"compile() receives `{shown}`, not the file's content as read: the program decoded is a rewritten one (line numbers / string contents can differ)"))
             rep.add("R16.6", f"{fn.qual}::the file's bytes are compiled unmodified", ok, loc(m, node), why)
+            # the file name recorded in every code object (CodeData.filename) is the path as given, like `python prog.py` records it
+            rewriting = {"resolve", "absolute", "expanduser", "abspath", "realpath", "normpath", "normcase", "relpath", "basename", "name", "stem", "with_suffix", "relative_to", "lower", "upper"}
+            if comp and len(comp[0].args) >= 2:
+                fnarg = comp[0].args[1]
+                rw = [x for x in ast.walk(fnarg) if (isinstance(x, ast.Attribute) and x.attr in rewriting)]
+                plain = (isinstance(fnarg, ast.Name) and umap.get(fnarg.id) == "file") or (
+                    isinstance(fnarg, ast.Call) and ((isinstance(fnarg.func, ast.Name) and fnarg.func.id == "str") or (attr_chain(fnarg.func) or "").endswith("fspath"))
+                    and len(fnarg.args) == 1 and isinstance(fnarg.args[0], ast.Name) and umap.get(fnarg.args[0].id) == "file")
+                if not plain and not rw:
+                    raise AnalysisError(f"{fn.qual}: the file name given to compile() is `{norm_src(fnarg)[:60]}`: whether that is the path as given is not decided")
+                conv = {k.arg: k.value for k in opts["file"]["node"].keywords}.get("type")
+                conv_fn = None
+                if conv is not None and isinstance(conv, ast.Name):
+                    r_ = an.prog.resolve_global(m, conv.id, fn)
+                    if r_ and r_[0] == "func":
+                        conv_fn = r_[1]
+                    elif r_ and r_[0] == "lam":
+                        conv_fn = r_[1]
+                elif isinstance(conv, ast.Lambda):
+                    conv_fn = conv
+                conv_ok = conv is None or (conv_fn is None and (attr_chain(conv) or "").split(".")[-1] in ("Path", "PurePath", "str", "PosixPath"))
+                rw2 = []
+                if conv_fn is not None:
+                    body = conv_fn.node if hasattr(conv_fn, "node") else conv_fn
+                    rw2 = [x for x in ast.walk(body) if isinstance(x, ast.Attribute) and x.attr in rewriting]
+                    if not rw2:
+                        raise AnalysisError(f"{fn.qual}: the positional argument is converted by `{norm_src(conv)}`: whether it keeps the path as given is not decided")
+                elif not conv_ok:
+                    raise AnalysisError(f"{fn.qual}: the positional argument is converted by `{norm_src(conv)}`: not a plain path / str constructor, effect on the file name not decided")
+                bad_ = rw or rw2
+                rep.add("R16.6", f"{fn.qual}::the file is compiled under the path given on the command line", not bad_, loc(m, bad_[0]) if bad_ else loc(m, comp[0]),
+                        f"compile() records `{norm_src(fnarg)}` and the argument is converted by `{norm_src(conv) if conv is not None else 'nothing'}`: the filename of every code object is the path as typed" if not bad_ else
+                        f"the path of the program is rewritten by `.{bad_[0].attr}` before compile() records it: `python-code-data prog.py` prints CodeData whose `filename` (of every nested "
+                        f"code object too) is not 'prog.py' - not what CodeData.from_code(compile(source, 'prog.py', 'exec')) gives for the same program")
         i += 1
         if len(node.orelse) == 1 and isinstance(node.orelse[0], ast.If):
             node = node.orelse[0]
@@ -463,4 +497,5 @@ def run(an: Analysis, rep):
     enc, cdec = find_json_functions(an)
     rep.run(c07.r071, an, shj, enc, cdec, defs)
     rep.run(c07.r073, an, shj, enc)
+    rep.run(c07.r07a, an, shj, enc)
     rep.stats.update(an.stats([it]))
